@@ -50,7 +50,13 @@ namespace occa {
     }
 
     void sizeofNode::print(printer &pout) const {
-      pout << "sizeof(" << *value << ')';
+      // [sizeof(a)] is parsed as sizeof applied to a parenthesized expression:
+      //   printing another pair would grow by one pair on every print
+      if (value->type() & exprNodeType::parentheses) {
+        pout << "sizeof" << *value;
+      } else {
+        pout << "sizeof(" << *value << ')';
+      }
     }
 
     void sizeofNode::debugPrint(const std::string &prefix) const {
